@@ -1,15 +1,18 @@
 (** C02 — the semantic half: the optimiser's register knowledge and each of its rewrite rules are
     sound with respect to the executable 6502 semantics (M6502/Sem.v).  Statements only; proofs in
     Proofs/OptSemFacts.v.  The extra hypotheses are the side conditions the proofs forced; each has a
-    [..._refuted] example in Proofs/OptSemFacts.v showing it cannot be dropped.  What is NOT
-    proved: the global simulation (that the N/Z flags a removed instruction would have set are dead). *)
+    [..._refuted] example in Proofs/OptSemFacts.v showing it cannot be dropped.  A removed load
+    either leaves the whole state as it was (the knowledge says which register N and Z describe),
+    or rests on a look-ahead, and then the instruction(s) looked at behave the same whatever N and Z
+    are ([C02_removal_dead]).  What is NOT proved: the global simulation of [run] on whole
+    programs. *)
 From Coq Require Import String Ascii List Bool NArith ZArith.
 From CC Require Import Base.Str Asm.Lines M6502.Isa Asm.Operand M6502.Sem
      Model.Optimize Model.OptSem Proofs.OptSemFacts.
 Import ListNotations.
 
 Theorem C02_transfer_sound : forall cfg k i ahead s s',
-  ports cfg = [] -> bytes_ok s -> i_mn i <> PLP ->
+  ports cfg = [] -> bytes_ok s ->
   (i_mn i = PHA \/ i_mn i = PHP -> know_off_stack cfg k s) ->
   ind_legal i -> xfer_no_zp_y cfg k i ->
   know_sound cfg k s -> steps_to cfg i s s' ->
@@ -20,8 +23,80 @@ Theorem C02_redundant_load_sound : forall cfg k i s s',
   ports cfg = [] -> know_sound cfg k s -> steps_to cfg i s s' ->
   (i_mn i = LDA /\ k_acc k = Some (i_op i)) \/ (i_mn i = LDX /\ k_x k = Some (i_op i)) \/
   (i_mn i = LDY /\ k_y k = Some (i_op i)) ->
-  eq_mod_nz s' s /\ (i_mn i = LDA -> k_flags k = FA -> eq_state s' s).
+  eq_mod_nz s' s /\
+  ((i_mn i = LDA /\ k_flags k = FA) \/ (i_mn i = LDX /\ k_flags k = FX) \/
+   (i_mn i = LDY /\ k_flags k = FY) -> eq_state s' s).
 Proof. exact redundant_load_sound. Qed.
+
+Theorem C02_removal_sound : forall cfg k i ahead s s',
+  ports cfg = [] -> know_sound cfg k s -> steps_to cfg i s s' ->
+  snd (transfer k i ahead) = true ->
+  eq_mod_nz s' s /\
+  (eq_state s' s \/ (i_mn i = LDA /\ lda_lookahead ahead = true) \/
+   ((i_mn i = LDX \/ i_mn i = LDY) /\ ldxy_lookahead ahead = true)).
+Proof. exact removal_sound. Qed.
+
+Theorem C02_defines_nz_dead : forall cfg m op s1 s2,
+  defines_nz m = true -> eq_mod_nz s1 s2 ->
+  outcome_eq (exec cfg m op s1) (exec cfg m op s2).
+Proof. exact defines_nz_dead. Qed.
+
+Theorem C02_store_keeps_eq_mod_nz : forall cfg m op s1 s2,
+  is_store m -> eq_mod_nz s1 s2 ->
+  outcome_eq_mod_nz (exec cfg m op s1) (exec cfg m op s2).
+Proof. exact store_keeps_eq_mod_nz. Qed.
+
+Theorem C02_store_then_defines_nz_dead : forall cfg m1 op1 m2 op2 s1 s2,
+  is_store m1 -> defines_nz m2 = true -> eq_mod_nz s1 s2 ->
+  outcome_eq (then_exec cfg (exec cfg m1 op1 s1) m2 op2) (then_exec cfg (exec cfg m1 op1 s2) m2 op2).
+Proof. exact store_then_defines_nz_dead. Qed.
+
+Theorem C02_ldxy_lookahead_dead : forall cfg ahead s1 s2,
+  ldxy_lookahead ahead = true -> eq_mod_nz s1 s2 ->
+  exists j, next_ins ahead = Some j /\ defines_nz (i_mn j) = true /\
+            forall op, outcome_eq (exec cfg (i_mn j) op s1) (exec cfg (i_mn j) op s2).
+Proof. exact ldxy_lookahead_dead. Qed.
+
+Theorem C02_lda_lookahead_dead : forall cfg ahead s1 s2,
+  lda_lookahead ahead = true -> eq_mod_nz s1 s2 ->
+  exists j1 t, ahead = Ins j1 :: t /\
+    ((i_mn j1 = CMP /\
+      forall op, outcome_eq (exec cfg (i_mn j1) op s1) (exec cfg (i_mn j1) op s2)) \/
+     (i_mn j1 = STA /\ exists j2, next_ins t = Some j2 /\ is_load (i_mn j2) = true /\
+      forall op1 op2,
+        outcome_eq (then_exec cfg (exec cfg (i_mn j1) op1 s1) (i_mn j2) op2)
+                   (then_exec cfg (exec cfg (i_mn j1) op1 s2) (i_mn j2) op2))).
+Proof. exact lda_lookahead_dead. Qed.
+
+Theorem C02_removal_dead : forall cfg k i ahead s s',
+  ports cfg = [] -> know_sound cfg k s -> steps_to cfg i s s' ->
+  snd (transfer k i ahead) = true ->
+  eq_mod_nz s' s /\
+  (eq_state s' s \/
+   (exists j, next_ins ahead = Some j /\ defines_nz (i_mn j) = true /\
+      forall op, outcome_eq (exec cfg (i_mn j) op s') (exec cfg (i_mn j) op s)) \/
+   (exists j1 j2 t, ahead = Ins j1 :: t /\ i_mn j1 = STA /\ next_ins t = Some j2 /\
+      is_load (i_mn j2) = true /\
+      forall op1 op2,
+        outcome_eq (then_exec cfg (exec cfg (i_mn j1) op1 s') (i_mn j2) op2)
+                   (then_exec cfg (exec cfg (i_mn j1) op1 s) (i_mn j2) op2))).
+Proof. exact removal_dead. Qed.
+
+(** the rule as it was before the fix (a repeated LDX removed whatever N and Z describe) is unsound *)
+Theorem C02_ldx_removal_needs_flags :
+  exists cfg k i s s',
+    know_sound cfg k s /\ steps_to cfg i s s' /\ i_mn i = LDX /\ k_x k = Some (i_op i) /\
+    ~ eq_state s' s.
+Proof. exact ldx_removal_needs_flags. Qed.
+
+Theorem C02_ldx_removal_changes_beq :
+  exists cfg k i s s',
+    know_sound cfg k s /\ k_flags k = FA /\ steps_to cfg i s s' /\ i_mn i = LDX /\
+    k_x k = Some (i_op i) /\
+    exec cfg BEQ (OLbl "l") s = XOk s 3%N (FGoto "l") /\
+    exec cfg BEQ (OLbl "l") s' = XOk s' 2%N FNext /\
+    snd (transfer k i [Ins (cx_ins BEQ "l")]) = false.
+Proof. exact ldx_removal_changes_beq. Qed.
 
 Theorem C02_rule_cmp_known : forall cfg k i1 i2 s op c s1,
   know_sound cfg k s -> bytes_ok s -> imm_text_injective cfg k i1 ->
